@@ -93,3 +93,47 @@ package files
 //@   effects nocomp stdout
 //@   trusted
 //@   modifies *
+
+// ---- writers (C06): a file-backed writer appends to the file named by its handle ----
+//@ pred wIsFile(w *Writer) := w.contents is *os.File
+//@ pred wFile(w *Writer) := w.contents as *os.File
+//@ pred msInv(ms *MemoryStream) := ms != nil && ms.pos >= 0
+//@ pred wInv(w *Writer) := w != nil && ((wIsFile(w) && wFile(w) != nil && wFile(w).writable) || (w.contents is *MemoryStream && msInv(w.contents as *MemoryStream)))
+//@ func NewMemoryStream [C06]
+//@   ensures msInv(result) && fresh(result) && fresh(result.contents)
+//@ func (*MemoryStream).Write [C06]
+//@   requires msInv(ms)
+//@   modifies ms.contents, ms.pos, elems(ms.contents)
+//@   ensures msInv(ms) && result.1 == nil
+//@   ensures where: fresh(ms.contents) || ms.contents.ref == old(ms.contents.ref)
+//@ func (*MemoryStream).Seek [C06]
+//@   requires msInv(ms)
+//@   modifies ms.pos
+//@   ensures msInv(ms)
+//@   ensures whence == 0 && offset >= 0 ==> result.1 == nil && ms.pos == offset
+//@ func (*MemoryStream).Close [C06]
+//@   ensures result == nil
+//@ func WriterFromMemory [C06]
+//@   ensures wInv(result) && fresh(result) && !wIsFile(result) && fs == old(fs) && fresh((result.contents as *MemoryStream).contents)
+// the destination is opened truncated: whatever the file held before is gone
+//@ func WriterFromFile [C06]
+//@   nopanic none
+//@   modifies fs
+//@   ensures wInv(result) && fresh(result) && wIsFile(result) && fresh(wFile(result)) && wFile(result).name == filename && wFile(result).pos == 0
+//@   ensures truncated: fs == store(old(fs), filename, "")
+//@ func (*Writer).WriteAt [C06]
+//@   requires wInv(vw) && offset >= 0 && (wIsFile(vw) ==> offset == len(select(fs, wFile(vw).name)))
+//@   modifies fs, wFile(vw).pos, (vw.contents as *MemoryStream).contents, (vw.contents as *MemoryStream).pos, elems((vw.contents as *MemoryStream).contents)
+//@   ensures inv: wInv(vw)
+//@   ensures appended: wIsFile(vw) ==> fs == store(old(fs), wFile(vw).name, old(select(fs, wFile(vw).name)) ++ data)
+//@   ensures memory: !wIsFile(vw) ==> fs == old(fs) && (fresh((vw.contents as *MemoryStream).contents) || (vw.contents as *MemoryStream).contents.ref == old((vw.contents as *MemoryStream).contents.ref))
+//@ func (*Writer).Close [C06]
+//@   requires wInv(vw)
+//@   ensures fs == old(fs)
+//@ func ReaderFromFileToMemory [C06]
+//@   nopanic none
+//@   ensures rdInv(result) && fresh(result) && rdData(result) == select(fs, filename) && !rdIsFile(result) && fs == old(fs)
+//@ func (*Reader).Close [C06]
+//@   requires rdInv(v)
+//@   modifies rdBF(v).closed
+//@   ensures fs == old(fs)
